@@ -229,6 +229,27 @@ func runJob(j job, shared []*gmars.WarriorData, sharedW []wdata) []string {
 			break
 		}
 	}
+	// further rounds on the same simulator, the way a tournament or the visual front-end reuses it:
+	// Reset (sometimes twice, sometimes with a partial respawn in between), respawn, run again
+	for round := 0; round < j.id%3; round++ {
+		lines = append(lines, b.reset())
+		if (j.id+round)%2 == 0 {
+			if (j.id+round)%4 == 0 {
+				lines = append(lines, b.spawn(0, j.offs[0]))
+			}
+			lines = append(lines, b.reset())
+		}
+		for i := range j.ws {
+			lines = append(lines, b.spawn(i, j.offs[i]))
+		}
+		for c := 0; c < 40 && b.inProgress(); c++ {
+			l, _, pan := b.cycle()
+			lines = append(lines, l)
+			if pan != "" {
+				break
+			}
+		}
+	}
 	lines = append(lines, fmt.Sprintf(`{"ev":"job","id":%d,"kind":"battle","res":{%s,"core":%s}}`, j.id, b.obs(), insListJSON(b.core())))
 	return lines
 }
